@@ -30,28 +30,39 @@ static std::string handle(const std::vector<std::string>& a) {
   if (a[0] == "CFG") return a[1] == cfgString() ? "cfg" : "cfg-mismatch " + cfgString();
   // AS <kind> <dump> : typed extraction of one value; kind 0 = copied strings, 1 = linked strings
   if (a[0] == "AS" && a.size() == 3) {
-    JsonDocument doc;
     std::deque<std::string> pool;
-    DumpParser p(a[2]);
-    if (!p.build(doc.to<JsonVariant>(), &pool, std::stoi(a[1]))) return "bad-dump";
-    JsonVariantConst v = doc.as<JsonVariantConst>();
+    // the extraction of one stored value; signedInts: a non-negative integer is stored through a signed type
+    auto extract = [&](bool signedInts, std::string& r) -> bool {
+      JsonDocument doc;
+      DumpParser p(a[2]);
+      p.signedInts = signedInts;
+      if (!p.build(doc.to<JsonVariant>(), &pool, std::stoi(a[1]))) return false;
+      JsonVariantConst v = doc.as<JsonVariantConst>();
+      r += "i8=" + showInt<signed char>(v) + " u8=" + showInt<unsigned char>(v);
+      r += " i16=" + showInt<short>(v) + " u16=" + showInt<unsigned short>(v);
+      r += " i32=" + showInt<int>(v) + " u32=" + showInt<unsigned int>(v);
+      r += " i64=" + showInt<long long>(v) + " u64=" + showInt<unsigned long long>(v);
+      // long / unsigned long are 64-bit here: must agree with long long
+      if (v.as<long>() != v.as<long long>() || v.as<unsigned long>() != v.as<unsigned long long>()) r += " LONG-DIFFERS";
+      r += " f32=" + dumpF32(v.as<float>()) + " f64=" + dumpF64(v.as<double>());
+      std::string is;
+      is += v.is<signed char>() ? '1' : '0'; is += v.is<unsigned char>() ? '1' : '0';
+      is += v.is<short>() ? '1' : '0'; is += v.is<unsigned short>() ? '1' : '0';
+      is += v.is<int>() ? '1' : '0'; is += v.is<unsigned int>() ? '1' : '0';
+      is += v.is<long long>() ? '1' : '0'; is += v.is<unsigned long long>() ? '1' : '0';
+      is += v.is<float>() ? '1' : '0'; is += v.is<double>() ? '1' : '0';
+      r += " is=" + is;
+      // operator| must return the value when is<T>() and the default otherwise
+      if ((v | (int)-7) != (v.is<int>() ? v.as<int>() : -7)) r += " OR-DIFFERS";
+      return true;
+    };
     std::string r;
-    r += "i8=" + showInt<signed char>(v) + " u8=" + showInt<unsigned char>(v);
-    r += " i16=" + showInt<short>(v) + " u16=" + showInt<unsigned short>(v);
-    r += " i32=" + showInt<int>(v) + " u32=" + showInt<unsigned int>(v);
-    r += " i64=" + showInt<long long>(v) + " u64=" + showInt<unsigned long long>(v);
-    // long / unsigned long are 64-bit here: must agree with long long
-    if (v.as<long>() != v.as<long long>() || v.as<unsigned long>() != v.as<unsigned long long>()) r += " LONG-DIFFERS";
-    r += " f32=" + dumpF32(v.as<float>()) + " f64=" + dumpF64(v.as<double>());
-    std::string is;
-    is += v.is<signed char>() ? '1' : '0'; is += v.is<unsigned char>() ? '1' : '0';
-    is += v.is<short>() ? '1' : '0'; is += v.is<unsigned short>() ? '1' : '0';
-    is += v.is<int>() ? '1' : '0'; is += v.is<unsigned int>() ? '1' : '0';
-    is += v.is<long long>() ? '1' : '0'; is += v.is<unsigned long long>() ? '1' : '0';
-    is += v.is<float>() ? '1' : '0'; is += v.is<double>() ? '1' : '0';
-    r += " is=" + is;
-    // operator| must return the value when is<T>() and the default otherwise
-    if ((v | (int)-7) != (v.is<int>() ? v.as<int>() : -7)) r += " OR-DIFFERS";
+    if (!extract(false, r)) return "bad-dump";
+    if (a[2][0] == 'i' && a[2][1] != '-') {
+      std::string r2;
+      extract(true, r2);
+      if (r2 != r) r += " STORAGE-DIFFERS:" + r2;
+    }
     return r;
   }
   // CMP <dump a> <dump b>
@@ -89,6 +100,26 @@ static std::string handle(const std::vector<std::string>& a) {
         default: break;
       }
       if (!s.empty() && s != r.substr(0, 12)) r += " SCALAR-DIFFERS:" + s;
+    }
+    // the same operands with their non-negative integers stored through signed types (Int32/Int64 instead of
+    // Uint32/Uint64): a value-level comparison cannot depend on it
+    if (a[1].find('i') != std::string::npos || a[2].find('i') != std::string::npos) {
+      for (int combo = 1; combo < 4; combo++) {
+        JsonDocument ea, eb;
+        DumpParser qa(a[1]), qb(a[2]);
+        qa.signedInts = combo & 1; qb.signedInts = combo & 2;
+        if (!unboundA && !qa.build(ea.to<JsonVariant>(), &pool, 0)) return "bad-dump";
+        if (!unboundB && !qb.build(eb.to<JsonVariant>(), &pool, 1)) return "bad-dump";
+        JsonVariantConst wa = unboundA ? JsonVariantConst() : ea.as<JsonVariantConst>();
+        JsonVariantConst wb = unboundB ? JsonVariantConst() : eb.as<JsonVariantConst>();
+        std::string r2 = bits12(wa, wb);
+        if (r2 != r.substr(0, 12)) { r += " STORAGE-DIFFERS(" + std::to_string(combo) + "):" + r2; break; }
+        const detail::VariantData* d2 = detail::VariantAttorney::getData(wb);
+        if (d2 && (d2->type() == detail::VariantType::Int32 || d2->type() == detail::VariantType::Int64)) {
+          std::string s2 = bits12s(wa, wb.as<long long>());
+          if (s2 != r.substr(0, 12)) { r += " SIGNED-SCALAR-DIFFERS(" + std::to_string(combo) + "):" + s2; break; }
+        }
+      }
     }
     return r;
   }
